@@ -24,6 +24,7 @@ var sdkPkgs = []string{
 
 // Prog is the loaded, type-checked program.
 type Prog struct {
+	sub    map[string]*Ctx // other properties' rule runs, for Ctx.Import
 	Dir    string
 	Fset   *token.FileSet
 	All    []*packages.Package
